@@ -823,6 +823,45 @@ fn gen_rec(
             let e = gen_rec(rng, cfg, d, fixes, fix_nesting);
             F::Ite(Box::new(c), Box::new(t), Box::new(e))
         }
+        5 if rng.chance(1, 6) && !cfg.pool.is_empty() => {
+            // the definitional-quantifier idiom: exists t # (t <=> DEF) & REST (and its dual),
+            // with t a binder name that does not occur in DEF
+            let t = rng.pick(&cfg.binder_pool).clone();
+            let def_cfg = GenCfg {
+                pool: cfg.pool.iter().filter(|n| **n != t).cloned().collect(),
+                binder_pool: cfg.binder_pool.iter().filter(|n| **n != t).cloned().collect(),
+                max_fix_nesting: 0,
+                ..cfg.clone()
+            };
+            let def = if def_cfg.pool.is_empty() || def_cfg.binder_pool.is_empty() {
+                F::Const(rng.coin())
+            } else {
+                let mut none: Vec<(String, Pol)> = fixes.iter().map(|(n, _)| (n.clone(), Pol::Mixed)).collect();
+                gen_rec(rng, &def_cfg, d.min(2), &mut none, cfg.max_fix_nesting)
+            };
+            let k0 = fixes.len();
+            if fixes.iter().any(|(m, _)| *m == t) {
+                fixes.push((t.clone(), Pol::Plain));
+            }
+            let rest_cfg = GenCfg {
+                pool: {
+                    let mut p = cfg.pool.clone();
+                    if !p.contains(&t) {
+                        p.push(t.clone());
+                    }
+                    p
+                },
+                ..cfg.clone()
+            };
+            let rest = gen_rec(rng, &rest_cfg, d.min(3), fixes, fix_nesting);
+            fixes.truncate(k0);
+            let iff = F::Bin(BinOp::Iff, Box::new(F::Var(t.clone())), Box::new(def));
+            if rng.chance(2, 3) {
+                F::Quant(false, vec![t], Box::new(F::Bin(BinOp::And, Box::new(iff), Box::new(rest))))
+            } else {
+                F::Quant(true, vec![t], Box::new(F::Bin(BinOp::Implies, Box::new(iff), Box::new(rest))))
+            }
+        }
         5 => {
             let k = *rng.pick(&[0usize, 1, 1, 1, 2, 2, 3]);
             let mut names = Vec::new();
@@ -888,6 +927,30 @@ fn gen_rec(
                 .map(|_| with_flip(fixes, hr, |fx| gen_rec(rng, cfg, d.min(1), fx, fix_nesting)))
                 .collect();
             F::CountL(op, l, r)
+        }
+        _ if fix_nesting + 2 <= cfg.max_fix_nesting.max(2) && cfg.binder_pool.len() >= 2 && !cfg.pool.is_empty() && rng.chance(1, 3) => {
+            // classic nested fixed-point shapes (alternation included):
+            //   FP1 X # FP2 Y # ((Q a # X) op1 P) op2 Y
+            let x = cfg.binder_pool[0].clone();
+            let y = cfg.binder_pool[1].clone();
+            if x == y {
+                return F::Fix(rng.coin(), x.clone(), Box::new(F::Var(x)));
+            }
+            let a = rng.pick(&cfg.pool).clone();
+            fixes.push((x.clone(), Pol::Pos));
+            fixes.push((y.clone(), Pol::Pos));
+            let p = gen_rec(rng, cfg, d.min(2), fixes, fix_nesting + 2);
+            fixes.pop();
+            fixes.pop();
+            let qx = if a == x || a == y {
+                F::Var(x.clone())
+            } else {
+                F::Quant(rng.coin(), vec![a], Box::new(F::Var(x.clone())))
+            };
+            let op1 = *rng.pick(&[BinOp::And, BinOp::Or]);
+            let op2 = *rng.pick(&[BinOp::And, BinOp::Or]);
+            let inner = F::Bin(op2, Box::new(F::Bin(op1, Box::new(qx), Box::new(p))), Box::new(F::Var(y.clone())));
+            F::Fix(rng.coin(), x, Box::new(F::Fix(rng.coin(), y, Box::new(inner))))
         }
         _ => {
             let name = if rng.chance(1, 3) {
